@@ -6,13 +6,15 @@
        listing and lookup equals the same read on the abstract graph the store denotes;
      - C03_reject: a rejected call changes nothing at all;
      - C03_timestamp: a graph's timestamp changes exactly when a call on that graph succeeds.
-   What is NOT yet proved (stated, see C03_full below): that the abstract graph denoted by the store is
-   the last-write-wins graph of the history. On the pinned code this is false for ids re-added with a
-   different label / endpoints (known findings 1-3); within the guard it is sampled by the correspondence
-   check (spec_violations of Run/Eval_C03.v compares the implementation with a_run directly). *)
+     - C03_refines / C03_verdicts: for EVERY history inside the guard (an edge id is never re-added with other
+       endpoints or label, a vertex id never with another label) the abstract graph the store denotes IS the
+       last-write-wins graph of the history (a_run), and every call succeeds exactly when the specification
+       says so. Together with C03_observe: every read after every such history equals the read on a_run.
+   Outside the guard the full statement (C03_full) is false for the pinned code (known findings 1-3) and is
+   refuted below by a machine-checked witness. *)
 From Coq Require Import List NArith Bool Arith.
 Import ListNotations.
-From Grip Require Import Model.KVGraph Proofs.KVGraphProofs.
+From Grip Require Import Model.KVGraph Proofs.KVGraphProofs Proofs.KVGraphRefine.
 
 Theorem C03_consistent : forall ops, Cons (kv (run ops)).
 Proof. exact run_Cons. Qed.
@@ -41,6 +43,24 @@ Theorem C03_timestamp : forall ops o g,
   ts_of (fst (step m o)) g <> ts_of m g <-> (snd (step m o) = true /\ g = op_graph o).
 Proof. intros ops o g m. exact (proj2 (step_timestamp m o g (run_TsInv ops))). Qed.
 Print Assumptions C03_timestamp.
+
+Theorem C03_refines : forall ops, guard ops = true -> abs (kv (run ops)) = a_run ops.
+Proof. exact refinement. Qed.
+Print Assumptions C03_refines.
+
+Theorem C03_verdicts : forall ops o, guard (ops ++ [o]) = true ->
+  snd (step (run ops) o) = snd (a_step (a_run ops) o).
+Proof. exact verdicts. Qed.
+Print Assumptions C03_verdicts.
+
+(* the guard is satisfiable by a history that re-adds ids (with the same endpoints / label), deletes, bulk-loads,
+   drops and re-creates a graph *)
+Example C03_guard_nonvacuous :
+  let h := [OAddGraph 1; OAddVertex 1 1 1 0; OAddVertex 1 2 2 1; OAddEdge 1 1 1 2 1 0; OAddEdge 1 1 1 2 1 5; OAddVertex 1 1 1 7;
+            OBulkAdd 1 [EV 3 1 0; EE 2 3 1 1 1; EE 2 3 1 1 2]; ODelEdge 1 1; OAddEdge 1 1 1 2 1 9; ODelVertex 1 3;
+            ODeleteGraph 1; OAddGraph 1; OAddEdge 1 1 2 1 3 0]%N in
+  guard h = true /\ a_edges (a_run h) = [((1, 1), (2, 1, 3, 0))]%N /\ a_verts (a_run h) = [].
+Proof. vm_compute. auto. Qed.
 
 (* the full statement of the property, kept visible *)
 Definition C03_full : Prop := forall ops, abs (kv (run ops)) = a_run ops.
